@@ -9,6 +9,7 @@
   6 foreign-writes MapSpec writes from outside a PipeFunc happen only where the pipeline invalidates afterwards or before
                    any MapSpec-dependent cached property can have been read
   7 fresh-objects  functions enter a pipeline only as copies (Pipeline.add), and every rewrite builds through it
+  9 name-space     lookups in _defaults/_bound use renamed parameter names; _flatten_scopes keeps every entry
   8 details        scope prefixes are matched with their dot; simplified_pipeline keeps outputs needed by ANY other group
 """
 
@@ -271,6 +272,30 @@ def rule_foreign_writes(ctx: Ctx) -> None:
         ctx.add("6-foreign-writes", ad, ad.node, ok, "add: append, clear the cached views, then validate (which may generate MapSpecs)" if ok else "Pipeline.add validates (and generates MapSpecs) without clearing the cached views after the append", key="add-order")
 
 
+def rule_bound_not_mapped(ctx: Ctx) -> None:
+    """A bound parameter has a fixed value: add_mapspec_axis never maps a function over it (it would get `p[k]` as an input
+    although the bound value wins, and its outputs would gain an axis that nothing feeds)."""
+    from ..flow import guard_facts
+
+    fn = ctx.prog.func("pipefunc._pipeline._mapspec.add_mapspec_axis")
+    cfg = ctx.cfg(fn)
+    d = Defs(fn)
+    p0 = fn.param_names()[0]
+    writes = cfg.nodes(lambda s_: isinstance(s_, ast.Assign) and any(isinstance(t, ast.Attribute) and t.attr == "mapspec" for t in s_.targets))
+    if not writes:
+        ctx.add("6-foreign-writes", fn, fn.node, None, "UNDECIDED: no MapSpec write found in add_mapspec_axis", key="bound-not-mapped")
+        return
+    for w in writes:
+        facts = guard_facts(cfg, d, w)
+        excluded = any(re.fullmatch(rf"{re.escape(p0)} in \w+\._bound", t) and not pol for t, pol in facts)
+        in_fn = "_bound" in norm(fn.node)
+        in_helpers = "_bound" in Scope(ctx, fn, wide=True).text()
+        # violated when the function itself tests `_bound` but not on the way to this write, or when nothing it calls looks at `_bound`
+        ctx.tri("6-foreign-writes", fn, cfg.stmt[w], excluded, not excluded and (in_fn or not in_helpers),
+                "a function's MapSpec is only extended for a parameter that is not bound", f"`{norm(cfg.stmt[w])[:60]}` is reached although `{p0}` may be bound in the function: its MapSpec gets `{p0}[...]` as input and a new output axis, while the bound value is what the function receives",
+                "exclusion of bound parameters not recognised", key="bound-not-mapped")
+
+
 def rule_fresh_objects(ctx: Ctx) -> None:
     P = ctx.prog
     pl, npf = P.cls(f"{BASE}.Pipeline"), P.cls(f"{PFM}.NestedPipeFunc")
@@ -323,8 +348,90 @@ def rule_details(ctx: Ctx) -> None:
     ctx.tri("8-details", us, us.node, "update_renames(" in norm(us.node) and "_prepend_name_with_scope(" in norm(us.node), False, "update_scope is a rename of exactly the selected names", "", "update_scope not recognised", key="scope-is-rename")
 
 
+def rule_name_space(ctx: Ctx) -> None:
+    """`_defaults` and `_bound` are keyed by the RENAMED parameter names (update_renames re-keys them and `_validate_update`
+    checks them against `self.parameters`); the signature / dataclass fields / pydantic fields give ORIGINAL names.  Where a
+    function computes the defaults, every lookup in those dicts must use the renamed name (`renames.get(original, original)`):
+    a lookup under the original name works until a parameter is renamed or scoped, then the override silently disappears."""
+    P = ctx.prog
+    n = 0
+    for q, conts in ((f"{PFM}.PipeFunc.defaults", ("self._defaults", "self._bound")), (f"{PFM}._pydantic_defaults", ("defaults",))):
+        fn = P.func(q)
+        d = Defs(fn)
+        for x in ast.walk(fn.node):
+            key = None
+            if isinstance(x, ast.Subscript) and norm(x.value) in conts and isinstance(x.ctx, ast.Load):
+                key = x.slice
+            elif isinstance(x, ast.Compare) and len(x.ops) == 1 and isinstance(x.ops[0], (ast.In, ast.NotIn)) and norm(x.comparators[0]) in conts:
+                key = x.left
+            if key is None:
+                continue
+            n += 1
+            r = d.resolve(key)
+            if isinstance(r, ast.Name):  # several definitions in the function (one per branch): take the one of the enclosing block
+                par_ = {id(c): p_ for p_ in ast.walk(fn.node) for c in ast.iter_child_nodes(p_)}
+                y: ast.AST = x
+                while id(y) in par_ and isinstance(r, ast.Name):
+                    y = par_[id(y)]
+                    for body in [getattr(y, "body", None), getattr(y, "orelse", None)]:
+                        if isinstance(body, list):
+                            for st in body:
+                                if isinstance(st, ast.Assign) and len(st.targets) == 1 and isinstance(st.targets[0], ast.Name) and st.targets[0].id == r.id and st.lineno < x.lineno:
+                                    r = st.value
+                                    break
+            renamed = isinstance(r, ast.Call) and isinstance(r.func, ast.Attribute) and r.func.attr == "get" and "renames" in norm(r.func.value)
+            original = (isinstance(r, ast.Attribute) and r.attr == "name") or (isinstance(r, ast.Name) and any(it["kind"] == "loop" and any(isinstance(t, ast.Name) and t.id == r.id for t in ast.walk(it["target"]))
+                                                                                                       and re.search(r"(fields|parameters|model_fields)\b", norm(d.resolve(it["iter"]))) for it in iterations(fn.node)))
+            ctx.tri("9-name-space", fn, x, renamed, original and not renamed, f"`{norm(x)[:40]}` uses the renamed parameter name",
+                    f"`{norm(x)[:50]}` looks up `{norm(x.value) if isinstance(x, ast.Subscript) else norm(x.comparators[0])}` under the ORIGINAL parameter name `{norm(key)}`; the dict is keyed by renamed names, so after update_renames / update_scope the overridden default is silently lost",
+                    f"name space of `{norm(key)}` not recognised", key=f"{fn.name} {norm(x)[:40]}")
+    ctx.floor("9-name-space", n, 4)
+    # `_output_name` is the ORIGINAL output name, `output_name` the renamed one that the pipeline wires by: apart from the
+    # rename itself, validation against the original parameters, type checks and the constructor arguments of copy(),
+    # nothing that the pipeline consumes (annotations per output, the default picker) may be keyed by the original names
+    pfc = P.cls(f"{PFM}.PipeFunc")
+    m = 0
+    for mname, fn in pfc.methods.items():
+        par_ = {id(c): p_ for p_ in ast.walk(fn.node) for c in ast.iter_child_nodes(p_)}
+        for x in [x for x in ast.walk(fn.node) if isinstance(x, ast.Attribute) and x.attr == "_output_name" and isinstance(x.value, ast.Name) and x.value.id == "self" and isinstance(x.ctx, ast.Load)]:
+            m += 1
+            chain = []
+            y: ast.AST = x
+            while id(y) in par_ and not isinstance(y, ast.stmt):
+                y = par_[id(y)]
+                chain.append(y)
+            stmt_text = norm(y)
+            try:
+                resolved_text = " ".join(norm(Defs(fn).resolve(part)) for part in ast.iter_child_nodes(y) if isinstance(part, ast.expr))
+            except Exception:  # noqa: BLE001
+                resolved_text = stmt_text
+            stmt_text = stmt_text + " " + resolved_text
+            allowed = (any(isinstance(c, ast.Call) and dotted(c.func).rsplit(".", 1)[-1] in ("_rename_output_name", "isinstance", "type", "_validate_output_name") for c in chain)
+                       or "original_parameters" in stmt_text
+                       or any(isinstance(c, ast.Dict) and any(isinstance(k, ast.Constant) and k.value == "output_name" and v is x for k, v in zip(c.keys, c.values)) for c in chain)
+                       or any(isinstance(c, ast.keyword) and c.arg == "output_name" and isinstance(par_.get(id(c)), ast.Call) and dotted(par_[id(c)].func).rsplit(".", 1)[-1] in ("PipeFunc", "NestedPipeFunc", "cls", "type(self)") for c in chain)
+                       or isinstance(y, ast.Raise) or "msg" in stmt_text[:8])
+            also_renamed = any(isinstance(z, ast.Attribute) and z.attr == "output_name" and isinstance(z.value, ast.Name) and z.value.id == "self" for z in ast.walk(fn.node))
+            ctx.tri("9-name-space", fn, x, allowed, not allowed and also_renamed, f"`self._output_name` in {mname}: original-name context",
+                    f"`{norm(y)[:70]}` uses the ORIGINAL output name(s) `self._output_name` in {mname}, which otherwise works with the renamed `self.output_name`: after update_renames / update_scope on the outputs the two differ, "
+                    "so annotations are keyed (or tuple elements picked) by names the pipeline does not use", f"`self._output_name` in {mname}: context not recognised", key=f"output-name-space {mname} {norm(y)[:30]}")
+    ctx.floor("9-name-space.output", m, 3)
+    fs = P.func(f"{PFM}.PipeFunc._flatten_scopes")
+    all_its = iterations(fs.node)
+    outer_targets = {x.id for it in all_its for x in ast.walk(it["target"]) if isinstance(x, ast.Name)}
+    # the iteration over ONE scope's `{name: value}` dict: its source is a loop variable of the iteration over the keywords
+    its = [it for it in all_its if any(isinstance(x, ast.Name) and x.id in outer_targets for x in ast.walk(it["iter"]))]
+    def about_entry(text: str, it: dict) -> bool:
+        names = {y.id for y in ast.walk(it["target"]) if isinstance(y, ast.Name)}
+        return any(re.search(rf"\b{re.escape(nm)}\b", text) for nm in names)
+
+    filt = [it for it in its if [f_ for f_ in it["filters"] if about_entry(f_[0], it)]]
+    ctx.tri("9-name-space", fs, filt[0]["node"] if filt else fs.node, bool(its) and not filt, bool(filt), "_flatten_scopes turns every entry of a scope dict into a dotted keyword",
+            f"_flatten_scopes drops entries of a scope dict (`if {filt[0]['filters'][0][0][:50] if filt else ''}`): in a scope shared by several functions the arguments of the other functions are lost and silently replaced by defaults", key="flatten-total")
+
+
 def check(ctx: Ctx) -> None:
-    for rule in (rule_copy_carries, rule_no_inplace, rule_result_keys, rule_sort_keys, rule_pickle_state, rule_foreign_writes, rule_fresh_objects, rule_details):
+    for rule in (rule_name_space, rule_bound_not_mapped, rule_copy_carries, rule_no_inplace, rule_result_keys, rule_sort_keys, rule_pickle_state, rule_foreign_writes, rule_fresh_objects, rule_details):
         ctx.run(rule)
 
 
